@@ -1,6 +1,7 @@
 import SignaloModel.Proofs.PeekProofs
 import SignaloModel.Proofs.SourcesTree
 import SignaloModel.Proofs.PeekRaw
+import SignaloModel.Proofs.SourcesRawProofs
 /-!
 # C10 — Source adapters yield exactly what their iterator analogues yield
 
@@ -9,6 +10,9 @@ The property theorems for C10: `#check` prints each statement, `#print axioms` i
 -/
 open SignaloModel
 
+#check @Sources.pulls_cache
+#check @Sources.pulls_take
+#check @Sources.pulls_chain
 #check @Sources.peek_raw_correct
 #check @Sources.peek_correct
 #check @Sources.runPeek_correct
@@ -33,6 +37,9 @@ open SignaloModel
 #check @Sources.peek_idem
 #check @Sources.peek_pull_plain
 
+#print axioms Sources.pulls_cache
+#print axioms Sources.pulls_take
+#print axioms Sources.pulls_chain
 #print axioms Sources.peek_raw_correct
 #print axioms Sources.peek_correct
 #print axioms Sources.runPeek_correct
